@@ -294,7 +294,7 @@ def sky_region_spec(rng, cls=None, frame=None, lon=None, lat=None, size_deg=None
     raise ValueError(cls)
 
 
-META_VOCAB = {'label': ['src 1', 'A'], 'tag': [['g1'], ['g1', 'g2']], 'comment': ['hi there'], 'name': ['n1'],
+META_VOCAB = {'label': ['src 1', 'A'], 'tag': [['g1'], ['g1', 'g2'], ['zeta', 'alpha', 'mid']], 'comment': ['hi there'], 'name': ['n1'],
               'frame': ['ICRS'], 'range': [[1, 2]], 'corr': [['I', 'Q']], 'type': ['reg'], 'text': ['some text'],
               'source': [1], 'background': [0], 'select': [1], 'component': [3]}
 VISUAL_VOCAB = {'color': ['red', '#00ff00', 'blue'], 'linewidth': [1, 2.5], 'fontname': ['helvetica'], 'fontsize': [10, 12],
